@@ -82,3 +82,12 @@ func VerifNewResponseWriter(w *bufio.Writer, mu *sync.Mutex, connID, requestID i
 func VerifMuxCounts(m *Mux) (routes int, hasDefault, hasUnbind bool) {
 	return len(m.routes), m.defaultRoute != nil, m.unbindRoute != nil
 }
+
+// VerifMessageID returns the LDAP message ID of the request's message.
+func VerifMessageID(r *Request) int64 { return r.message.GetID() }
+
+// VerifIsExtended reports whether the request carries an extended operation message.
+func VerifIsExtended(r *Request) bool {
+	_, ok := r.message.(*ExtendedOperationMessage)
+	return ok
+}
